@@ -31,7 +31,8 @@ stands for it (every label emits at most one visible event, stamped with the vir
                (`context.WithoutCancel(ctx)`, regenerated), from no values otherwise — and the peer's
                canceller runs `Cancel(id)`: the request indexed under that id ON THE CONNECTION THE
                NOTICE ARRIVED ON has its context cancelled (event `hc` if its handler is running).
-               Needs the route to exist and the request to have been delivered (FIFO per route).
+               Needs the route to be there (`routeMay`: on a response stream its client has just
+               abandoned delivery is a race) and the request to have been delivered (FIFO per route).
   `drop i`     the notice cannot be written (route gone, or fault): nothing happens.
   `tick d`     virtual time advances — only when nothing urgent is pending (`quiet`): as under
                testing/synctest, time moves only when every goroutine is blocked.  Urgent: a request
@@ -194,6 +195,13 @@ def enclRunning (c : Cfg) (s : St) (i : Nat) : Bool :=
 def abortIsNotice (c : Cfg) (i : Nat) : Bool :=
   c.tr == .stateless && c.propagate && (c.info i).dir == .c2s
 
+/-- May a message still get through on this route?  A response stream that the client has just abandoned (its
+caller's context ended) may still carry what the server wrote before the client stopped reading: whether a
+notice written in that instant arrives is a race. -/
+def routeMay (c : Cfg) (s : St) : Route → Bool
+  | .reqStream p => s.req p == .running
+  | r => routeExists c s r
+
 def payload (c : Cfg) (i : Nat) : Option Nat := if (c.info i).plain then none else some i
 
 /-- What must happen before virtual time may advance, for call i. -/
@@ -262,7 +270,7 @@ def step (c : Cfg) (s : St) : Label → Option St
       else none
     | none => none
   | .notice i =>
-    if s.notice i = .pending ∧ (c.info i).fault = false ∧ routeExists c s (noticeRoute c i) = true ∧ s.req i ≠ .transit then
+    if s.notice i = .pending ∧ (c.info i).fault = false ∧ routeMay c s (noticeRoute c i) = true ∧ s.req i ≠ .transit then
       if sameConn c i = true ∧ (s.req i = .queued ∨ s.req i = .running) then
         some { s with notice := upd s.notice i .delivered, hcan := upd s.hcan i true,
                       trace := if s.req i = .running then emit s .hc i else s.trace }
